@@ -1,7 +1,7 @@
 (* C14 proofs, part 4: median (plain and running). *)
 From Coq Require Import ZArith QArith Qround Qabs List Bool Lia Lqa ZifyBool Sorted Permutation.
 Import ListNotations.
-From PV Require Import C14.Model C14.Proofs.
+From PV Require Import Generated.Median C14.Model C14.Proofs.
 Open Scope Z_scope.
 Ltac Zify.zify_post_hook ::= Z.to_euclidean_division_equations.
 
@@ -41,9 +41,20 @@ Proof. induction l; cbn; [constructor|]. apply insertQ_sorted. assumption. Qed.
 (* ------------------------------------------------------------------ median without width *)
 
 (* M = S: np.median for odd counts or /EVEN, argsort pick otherwise, is "upper middle unless even" *)
+Lemma odd_of_nat_mod2 n : (Z.of_nat n mod 2 =? 1) = Nat.odd n.
+Proof.
+  destruct (Nat.odd n) eqn:E.
+  - apply Nat.odd_spec in E. destruct E as [m ->]. apply Z.eqb_eq. lia.
+  - rewrite <- Nat.negb_even in E. apply negb_false_iff in E. apply Nat.even_spec in E. destruct E as [m ->].
+    apply Z.eqb_neq. lia.
+Qed.
+
 Theorem median_plain_refines_spec xs even : median_plain xs even = median_spec xs even.
 Proof.
-  unfold median_plain, median_spec, np_median. rewrite sortQ_length.
+  unfold median_plain, median_spec, np_median, median_uses_npmedian, median_pick_rank, lenZ. rewrite sortQ_length.
+  rewrite odd_of_nat_mod2.
+  replace (Z.to_nat (Z.of_nat (length xs) / 2)) with (Nat.div (length xs) 2)
+    by (rewrite <- (Nat2Z.id (Nat.div (length xs) 2)), Nat2Z.inj_div; reflexivity).
   rewrite <- Nat.negb_odd. destruct (Nat.odd (length xs)); destruct even; reflexivity.
 Qed.
 
@@ -66,6 +77,7 @@ Theorem median_filter1_refines_spec xs width :
   median_filter1 xs width = F1Ok (median_filter1_spec xs width).
 Proof.
   intros Ho Hw. unfold median_filter1, median_filter1_spec.
+  unfold medfilt1_kernel, medfilt1_istart, medfilt1_iend, medfilt1_edge.
   rewrite Z.min_l by lia.
   assert (E : Z.even width || (width <? 1) = false).
   { rewrite <- Z.negb_odd, Ho. cbn. lia. }
@@ -131,6 +143,7 @@ Theorem median_filter2_refines_spec x width :
   median_filter2 x width = F2Ok (median_filter2_spec x width).
 Proof.
   intros Ho H1 H2 H3. unfold median_filter2, median_filter2_spec.
+  unfold medfilt2_kernel, medfilt2_istart, medfilt2_iend0, medfilt2_iend1, medfilt2_edge_row, medfilt2_edge_col.
   rewrite Z.min_l by nia.
   assert (E : Z.even width || (width <? 1) = false).
   { rewrite <- Z.negb_odd, Ho. cbn. lia. }
@@ -140,7 +153,7 @@ Proof.
   apply map_seq_ext. intros a Ha. cbv zeta. apply map_seq_ext. intros b Hb.
   set (i := Z.of_nat a). set (j := Z.of_nat b). unfold interior.
   destruct ((i <? Z.quot (width - 1) 2) || (i >? lenZ x - Z.quot (width + 1) 2)
-            || (j <? Z.quot (width - 1) 2) || (j >? Z.of_nat (ncols x) - Z.quot (width + 1) 2)) eqn:Ee.
+            || ((j <? Z.quot (width - 1) 2) || (j >? Z.of_nat (ncols x) - Z.quot (width + 1) 2))) eqn:Ee.
   - replace ((h <=? i) && (i <=? lenZ x - 1 - h) && ((h <=? j) && (j <=? Z.of_nat (ncols x) - 1 - h))) with false by lia.
     reflexivity.
   - replace ((h <=? i) && (i <=? lenZ x - 1 - h) && ((h <=? j) && (j <=? Z.of_nat (ncols x) - 1 - h))) with true by lia.
@@ -184,4 +197,39 @@ Proof.
   replace ((h <=? Z.of_nat a) && (Z.of_nat a <=? lenZ x - 1 - h)
            && ((h <=? Z.of_nat b) && (Z.of_nat b <=? Z.of_nat (ncols x) - 1 - h))) with true by lia.
   reflexivity.
+Qed.
+
+(* ------------------------------------------------------------------ median(array, axis=...) *)
+
+Lemma np_median_spec r : np_median r = median_spec r true.
+Proof.
+  rewrite <- median_plain_refines_spec. unfold median_plain, median_uses_npmedian.
+  rewrite orb_true_r. reflexivity.
+Qed.
+
+(* axis = 1 (any non-zero axis of a 2-D array): every row independently, result k = 1-D median (/EVEN) of row k *)
+Theorem median_axis_rows x axis : axis <> 0 -> median_axis x axis = map (fun r => median_spec r true) x.
+Proof.
+  intros H. unfold median_axis. destruct (axis =? 0) eqn:E; [lia|]. apply map_ext. exact np_median_spec.
+Qed.
+
+(* axis = 0: every column independently, result j = 1-D median (/EVEN) of column j *)
+Theorem median_axis_columns x :
+  median_axis x 0 = map (fun j => median_spec (column j x) true) (seq 0 (ncols x)).
+Proof. unfold median_axis. cbn [Z.eqb]. apply map_ext. intros j. apply np_median_spec. Qed.
+
+(* line k of the result depends on line k of the input only *)
+Theorem median_axis_line x :
+  (forall axis k r, axis <> 0 -> nth_error x k = Some r ->
+                    nth_error (median_axis x axis) k = Some (median_spec r true)) /\
+  (forall j, (j < ncols x)%nat -> nth_error (median_axis x 0) j = Some (median_spec (column j x) true)) /\
+  length (median_axis x 0) = ncols x /\ (forall axis, axis <> 0 -> length (median_axis x axis) = length x).
+Proof.
+  repeat split.
+  - intros axis k r Ha Hk. rewrite median_axis_rows by exact Ha.
+    apply (map_nth_error (fun r0 => median_spec r0 true) k x Hk).
+  - intros j Hj. rewrite median_axis_columns.
+    rewrite (nth_error_map_seq (fun j0 => median_spec (column j0 x) true)) by exact Hj. reflexivity.
+  - rewrite median_axis_columns, map_length, seq_length. reflexivity.
+  - intros axis Ha. rewrite median_axis_rows by exact Ha. apply map_length.
 Qed.
